@@ -214,6 +214,11 @@ func (c *Checker) afterCall(x *callCtx) {
 		c.checkEmittedData(x) // C10 (emitted data parses)
 	}
 	c.bookkeepMessages(x) // C01 (acceptance / refund)
+	// C10: the hand-over message the library itself emitted continues the operation on the next holder's shard: nothing in
+	// the destination's state can legitimately refuse it (no gate, no payability, no hash) — unless a fault was injected
+	if !ok && x.msg != nil && x.ann.kind == "deliver" && x.msg.Fn == FnHandOver && x.fault < 0 && strings.HasPrefix(x.res.Status, "err:") {
+		c.report(x, "C10", "the create-role hand-over message emitted for %x (arguments %x) is refused on its destination shard: %s", x.msg.Dest, x.msg.Args, x.res.Status)
+	}
 	if !ok {
 		if strings.HasPrefix(x.res.Status, "shape:") {
 			c.expected = c.actualTotals() // no rollback happened; resynchronise
@@ -753,6 +758,22 @@ func (c *Checker) checkAuthority(x *callCtx, diffs []diffSlot) {
 	// system only
 	if sysOnly[fn] && !x.isSys {
 		c.report(x, "C03", "%s ok although the caller is not the ESDT system contract", fn)
+	}
+	// a role the system contract took back is gone: after a successful ESDTUnSetRole none of the named roles is listed
+	// (tokens with deliberately duplicated roles excepted: one occurrence is erased per call)
+	if fn == FnUnSetRole && x.isSys && len(call.Args) >= 2 && !c.undisciplined[string(call.Args[0])] {
+		if r, ok := DecodeRoles(postValue(c.w, call.Shard, call.Rcv, RolePrefix+string(call.Args[0]))); ok {
+			pre, _ := DecodeRoles(x.pre.value(call.Rcv, RolePrefix+string(call.Args[0])))
+			dup := map[string]int{}
+			for _, p := range pre {
+				dup[p]++
+			}
+			for _, a := range call.Args[1:] {
+				if hasRole(r, string(a)) && dup[string(a)] <= 1 {
+					c.report(x, "C03", "ESDTUnSetRole of %q for %q succeeded but account %x still lists the role (roles %q)", a, call.Args[0], call.Rcv, r)
+				}
+			}
+		}
 	}
 	handOverDelivery := x.msg != nil && x.ann.kind == "deliver" && x.msg.Fn == FnHandOver
 	// authority moves, it is not copied: after the system contract's hand-over the old holder no longer lists the role
